@@ -60,7 +60,7 @@ def build(rnd, lb, mode):
             os.mkdir(os.path.join(d, outname))
     else:
         pre = None
-    return dict(dir=d, mode=mode, stem=stem, kind=kind, flags=flags, perm=perm, at_ns=at_ns, mt_ns=mt_ns, plain=plain, comp=comp,
+    return dict(dir=d, stderr_full=rnd.random() < 0.2, mode=mode, stem=stem, kind=kind, flags=flags, perm=perm, at_ns=at_ns, mt_ns=mt_ns, plain=plain, comp=comp,
                 content=content, outname=outname, pre=pre)
 
 
@@ -95,11 +95,31 @@ def one(ctx, lb, rnd_seed, s):
     d = s['dir']
     before = fm.snapshot(d)
     argv = [lb] + (['-d'] if s['mode'] == 'decompress' else ['-z']) + s['flags'] + ['-n', '2', '--', s['stem']]
-    r = core.run(argv, cwd=d, timeout=60)
+    full = s.get('stderr_full')
+    r = core.run(argv, cwd=d, timeout=60, stderr_path='/dev/full' if full else None)
     ctx.ev()
     after = fm.snapshot(d)
     shutil.rmtree(d, ignore_errors=True)
     e = expect(s)
+    if full:
+        # diagnostics cannot be written: the run may fail, but the safety rules still hold --
+        # a skipped operand and a pre-existing output must be left exactly as they were
+        desc = dict(mode=s['mode'], operand=s['stem'], kind=s['kind'], flags=s['flags'], preexisting_output=s['pre'], stderr='/dev/full',
+                    expected_skip=e['skip'])
+        info = dict(desc, argv=['lbzip2'] + argv[1:] + ['2>/dev/full'], before=fm.brief(before), after=fm.brief(after), status=r.status)
+        if lbz.bad_ending(ctx, r, 'operand run %s' % desc, None, info):
+            return
+        if e['skip'] and e['skip'] != 'directory-read' and not fm.same_ignoring_atime(before, after):
+            ctx.violation('skip-touched-when-stderr-fails:%s:%s' % (s['mode'], s['kind']),
+                          'operand to be skipped (%s) but the directory changed when the warning could not be written: %s | %s'
+                          % (e['skip'], fm.changed_names(before, after), desc), None, info)
+            return
+        if s['pre'] == 'file' and '-f' not in s['flags'] and after.get(s['outname'], (None, None))[1] != b'PRE-EXISTING OUTPUT':
+            ctx.violation('existing-output-modified-when-stderr-fails:' + s['mode'], 'pre-existing output changed without -f: %s' % desc, None, info)
+            return
+        ctx.count('runs_with_failing_stderr')
+        ctx.nt((s['mode'], s['stem'], s['kind'], tuple(s['flags']), s['perm'], s['pre'], 'stderr-full'))
+        return
     desc = dict(mode=s['mode'], operand=s['stem'], kind=s['kind'], flags=s['flags'], perm=oct(s['perm']), preexisting_output=s['pre'],
                 expected_skip=e['skip'])
     info = dict(desc, argv=['lbzip2'] + argv[1:], before=fm.brief(before), after=fm.brief(after), status=r.status,
